@@ -132,6 +132,34 @@ def families(tier):
         for a in (num(0), num(1), num(2), ('lit', '2.5', 2.5), ('un', '-', num(1)), ('un', '-', ('lit', '2.5', 2.5)), x):
             t = ('call', f, (a,))
             out.append(('bin', '=', t, TRUE) if f == 'bool' else ('bin', '<', t, y))
+    # F2b: (a op b) op (c op d) for the regrouped operators with negated and third-field members (both tiers)
+    pool2 = [x, ('un', '-', x), tf('z'), ax, num(1), num(0)]
+    for op in ('+', '*'):
+        for a in pool2:
+            for b in pool2:
+                for c in pool2:
+                    for d in pool2:
+                        out.append(('bin', '=', ('bin', op, ('bin', op, a, b), ('bin', op, c, d)), y))
+    # F9: ranges with a bound that simplify rewrites, every bracket form, under in / len / sum / max / quantifiers
+    sbounds = [('bin', '+', num(1), num(1)), ('bin', '+', x, num(0)), ('bin', '*', num(2), num(1)), ('un', '-', ('un', '-', num(1)))]
+    for fl in RANGE_FLAGS:
+        for sb in sbounds:
+            for rng in (('range', sb, num(3), fl[0], fl[1]), ('range', num(0), sb, fl[0], fl[1]), ('range', sb, sb, fl[0], fl[1])):
+                out.append(('bin', 'in', y, rng))
+                for f in ('len', 'sum', 'max', 'min', 'prod'):
+                    out.append(('bin', '=', ('call', f, (rng,)), y))
+                out.append(('quant', 'exists', 'i', rng, ('bin', '=', ('var', 'i'), y)))
+    # F10: very large literal ranges and integers (folding must not overflow or lose precision)
+    big = [('lit', '18446744073709551615', 18446744073709551615), ('lit', '9223372036854775808', 9223372036854775808), ('lit', '9007199254740993', 9007199254740993)]
+    for b_ in big:
+        out.append(('bin', '>', ('call', 'len', (('range', num(0), b_, False, False),)), num(0)))
+        for f_ in ('sum', 'prod', 'max', 'min'):
+            out.append(('bin', '>=', ('call', f_, (('range', num(0), b_, True, False),)), num(0)))
+            out.append(('bin', '>=', ('call', f_, (('range', ('un', '-', num(2)), b_, False, False),)), num(0)))
+        out.append(('bin', 'in', y, ('range', num(0), b_, False, True)))
+        out.append(('bin', '=', ('bin', '+', b_, num(1)), ('bin', '+', num(1), b_)))
+        out.append(('bin', '=', ('bin', '-', ('bin', '+', b_, num(1)), b_), num(1)))
+        out.append(('bin', '>', ('bin', '*', b_, num(2)), b_))
     # F8: a compound operand next to its own negation (the "obvious negatives" shortcuts on non-atomic operands)
     bcores = [('bin', 'and', p, q), ('bin', 'or', p, q), ('bin', '>', x, num(0)), ('bin', 'implies', p, q), ('un', 'not', p), ('bin', '=', x, y), ('bin', 'in', x, tf('xs'))]
     for c in bcores:
@@ -244,11 +272,16 @@ def _env_json(env):
 def run_simplify(ast, choices=()):
     from hpl.rewrite import simplify
 
+    from hplmc.core import Watchdog
+
     seam = impl.OrderedSetSeam(choices)
     with seam:
         try:
-            out = simplify(ast)
+            with Watchdog(20):
+                out = simplify(ast)
             return ('ok', out, seam.points)
+        except Watchdog.Timeout:
+            return ('no termination within 20 s', '', seam.points)
         except RecursionError as e:
             return ('RecursionError', e, seam.points)
         except Exception as e:  # noqa: BLE001
